@@ -12,8 +12,8 @@ import "time"
 // read-only requests until the lease is renewed.
 //
 // Renewing the lease extends its validity by the duration period
-// from the current time. To check if a lease is valid at a given
-// moment, use the isValid method.
+// from the time the confirmed round of heartbeats was sent. To check
+// if a lease is valid at a given moment, use the isValid method.
 type lease struct {
 	// Time at which the lease expires.
 	expiration time.Time
@@ -32,7 +32,19 @@ func newLease(duration time.Duration) *lease {
 // renew resets the expiration time of the lease to the current
 // time plus the duration of the lease.
 func (l *lease) renew() {
-	l.expiration = time.Now().Add(l.duration)
+	l.renewFrom(time.Now())
+}
+
+// renewFrom extends the lease to the provided time plus the duration
+// of the lease. The provided time must not be later than the moment the
+// requests that the renewal rests on were sent: the nodes that answered
+// them hold off elections for an election timeout from the moment they
+// received the request, not from the moment their answer arrived here.
+// The lease is never shortened.
+func (l *lease) renewFrom(start time.Time) {
+	if expiration := start.Add(l.duration); expiration.After(l.expiration) {
+		l.expiration = expiration
+	}
 }
 
 // isValid returns true if the current time is less than
